@@ -3344,4 +3344,225 @@ theorem rowsfrom_succ (w : ℤ) (T : CSeq) (t : ℤ) :
 
 end Rows
 
+
+/-! # Twelfth batch: clause samplers (C13) -/
+
+/-- `k` literals, variables strictly increasing, inside `1..n` — literally the z3 definition -/
+def valid1 (k n : ℤ) (c : ISeq) : Prop :=
+  ilen c = k ∧
+  (∀ j : ℤ, (0 ≤ j ∧ j < k) → (1 ≤ zabs (iget c j) ∧ zabs (iget c j) ≤ n)) ∧
+  (∀ i j : ℤ, (0 ≤ i ∧ i < j ∧ j < k) → zabs (iget c i) < zabs (iget c j))
+
+/-- `valid1(k, n, c) == And(ilen(c) == k, ForAll([j], Implies(And(0 <= j, j < k), And(1 <= zabs(iget(c, j)),
+    zabs(iget(c, j)) <= n))), ForAll([i, j], Implies(And(0 <= i, i < j, j < k), zabs(iget(c, i)) < zabs(iget(c, j)))))` -/
+theorem valid1_def (k n : ℤ) (c : ISeq) : valid1 k n c ↔
+    (ilen c = k ∧
+     (∀ j : ℤ, (0 ≤ j ∧ j < k) → (1 ≤ zabs (iget c j) ∧ zabs (iget c j) ≤ n)) ∧
+     (∀ i j : ℤ, (0 ≤ i ∧ i < j ∧ j < k) → zabs (iget c i) < zabs (iget c j))) := Iff.rfl
+
+theorem valid1_elem (k n : ℤ) (c : ISeq) (h : valid1 k n c) :
+    ∀ x ∈ c, 1 ≤ (x.natAbs : ℤ) ∧ (x.natAbs : ℤ) ≤ n := by
+  intro x hx
+  obtain ⟨m, hm, rfl⟩ := List.getElem_of_mem hx
+  obtain ⟨hl, hb, _⟩ := h
+  unfold ilen at hl
+  have := hb (m : ℤ) ⟨by omega, by omega⟩
+  rw [iget_natCast c m hm, zabs_eq_natAbs] at this
+  exact this
+
+/-- `valid1(k, n, c) -> And(Not(haszero(c)), maxabs(c) <= zmax(n, 0))` -/
+theorem valid1_bounds (k n : ℤ) (c : ISeq) : valid1 k n c →
+    (¬ haszero c ∧ maxabs c ≤ zmax n 0) := by
+  intro h
+  have he := valid1_elem k n c h
+  rw [zmax_eq_max]
+  constructor
+  · intro h0
+    have := he 0 h0
+    simp at this
+  · rw [maxabs_le_iff _ _ (by omega)]
+    intro x hx
+    have := he x hx
+    omega
+
+section Samplers
+
+-- the clause is satisfied by every planted assignment of the call: an ARBITRARY predicate
+variable (psat : ISeq → Prop)
+
+/-- every clause of the list is `valid1` and `psat` -/
+def cvalid (k n : ℤ) (L : CSeq) : Prop := ∀ c ∈ L, valid1 k n c ∧ psat c
+/-- pairwise distinct clauses -/
+def cdistinct (L : CSeq) : Prop := L.Nodup
+/-- membership -/
+def cmem (c : ISeq) (L : CSeq) : Prop := c ∈ L
+/-- the set of the clauses of a list, as a characteristic function (z3 `Array ISeq Bool`);
+    `Select(s, c) = s c`, `K(ISeq, False) = fun _ => False`, `Store(s, c, True) = Function.update s c True` -/
+def cset (L : CSeq) : ISeq → Prop := fun c => c ∈ L
+/-- `R` lists elements of `F` at pairwise distinct positions (`random.sample`) -/
+def csubsel (R F : CSeq) : Prop :=
+  ∃ p : Fin R.length → Fin F.length, Function.Injective p ∧ ∀ i : Fin R.length, R.get i = F.get (p i)
+/-- number of `k`-clauses over `n` variables compatible with the planted assignments -/
+noncomputable def navail_p (k n : ℤ) : ℤ := (({c | valid1 k n c ∧ psat c} : Set ISeq).ncard : ℤ)
+
+/-- `L == cnil -> cvalid(k, n, L)` -/
+theorem cvalid_nil (k n : ℤ) (L : CSeq) : L = cnil → cvalid psat k n L := by
+  rintro rfl c hc; cases hc
+
+/-- `cvalid(k, n, L) -> And(Not(chaszero(L)), cmaxabs(L) <= zmax(n, 0))` -/
+theorem cvalid_bounds (k n : ℤ) (L : CSeq) : cvalid psat k n L →
+    (¬ chaszero L ∧ cmaxabs L ≤ zmax n 0) := by
+  intro h
+  constructor
+  · rintro ⟨c, hc, h0⟩
+    exact (valid1_bounds k n c (h c hc).1).1 h0
+  · rw [cmaxabs_le_iff _ _ (by rw [zmax_eq_max]; omega)]
+    intro c hc
+    exact (valid1_bounds k n c (h c hc).1).2
+
+/-- `cvalid(k, n, csnoc(L0, c)) == And(cvalid(k, n, L0), valid1(k, n, c), psat(c))` -/
+theorem cvalid_snoc (k n : ℤ) (L0 : CSeq) (c : ISeq) :
+    cvalid psat k n (csnoc L0 c) ↔ (cvalid psat k n L0 ∧ valid1 k n c ∧ psat c) := by
+  unfold cvalid csnoc
+  constructor
+  · intro h
+    exact ⟨fun d hd => h d (List.mem_append_left _ hd),
+           h c (List.mem_append_right _ (List.mem_singleton.mpr rfl))⟩
+  · rintro ⟨h1, h2⟩ d hd
+    rcases List.mem_append.mp hd with h | h
+    · exact h1 d h
+    · rw [List.mem_singleton] at h; subst h; exact h2
+
+/-- all lists of length `m` over a finite alphabet -/
+def allLists (A : Finset ℤ) : ℕ → Finset (List ℤ)
+  | 0 => {[]}
+  | m + 1 => (A ×ˢ allLists A m).image (fun p => p.1 :: p.2)
+
+theorem mem_allLists (A : Finset ℤ) : ∀ (c : List ℤ) (m : ℕ), c.length = m → (∀ x ∈ c, x ∈ A) →
+    c ∈ allLists A m
+  | [], m, hl, _ => by
+    subst hl; simp [allLists]
+  | x :: t, m, hl, hA => by
+    cases m with
+    | zero => simp at hl
+    | succ m =>
+      have ht := mem_allLists A t m (by simpa using hl) (fun y hy => hA y (List.mem_cons_of_mem _ hy))
+      simp only [allLists, Finset.mem_image, Finset.mem_product, Prod.exists]
+      exact ⟨x, t, ⟨hA x List.mem_cons_self, ht⟩, rfl⟩
+
+theorem valid1_finite (k n : ℤ) : ({c | valid1 k n c} : Set ISeq).Finite := by
+  apply Set.Finite.subset (Finset.finite_toSet (allLists (Finset.Icc (-n) n) k.toNat))
+  intro c hc
+  have he := valid1_elem k n c hc
+  have hl : c.length = k.toNat := by
+    have := hc.1; unfold ilen at this; omega
+  apply mem_allLists _ c _ hl
+  intro x hx
+  have := he x hx
+  rw [Finset.mem_Icc]
+  omega
+
+theorem avail_finite (k n : ℤ) : ({c | valid1 k n c ∧ psat c} : Set ISeq).Finite :=
+  (valid1_finite k n).subset (fun _ hc => hc.1)
+
+/-- the counting lemma: `And(cvalid(k, n, L), cdistinct(L)) -> clen(L) <= navail_p(k, n)` -/
+theorem distinct_valid_le_card (k n : ℤ) (L : CSeq) :
+    (cvalid psat k n L ∧ cdistinct L) → clen L ≤ navail_p psat k n := by
+  rintro ⟨hv, hd⟩
+  unfold clen navail_p
+  have hsub : (↑L.toFinset : Set ISeq) ⊆ {c | valid1 k n c ∧ psat c} := by
+    intro c hc
+    have : c ∈ L := by simpa using hc
+    exact hv c this
+  have h1 := Set.ncard_le_ncard hsub (avail_finite psat k n)
+  rw [Set.ncard_coe_finset, List.toFinset_card_of_nodup hd] at h1
+  exact_mod_cast h1
+
+/-- `L == cnil -> cdistinct(L)` -/
+theorem cdistinct_nil (L : CSeq) : L = cnil → cdistinct L := by
+  rintro rfl; exact List.nodup_nil
+
+/-- `cdistinct(csnoc(L0, c)) == And(cdistinct(L0), Not(cmem(c, L0)))` -/
+theorem cdistinct_snoc (L0 : CSeq) (c : ISeq) :
+    cdistinct (csnoc L0 c) ↔ (cdistinct L0 ∧ ¬ cmem c L0) := by
+  unfold cdistinct csnoc cmem
+  rw [List.nodup_append]
+  constructor
+  · rintro ⟨h1, _, h3⟩
+    exact ⟨h1, fun hc => h3 c hc c (List.mem_singleton.mpr rfl) rfl⟩
+  · rintro ⟨h1, h2⟩
+    refine ⟨h1, List.nodup_singleton c, ?_⟩
+    intro a ha b hb hab
+    rw [List.mem_singleton] at hb
+    subst hb; subst hab
+    exact h2 ha
+
+/-- `L == cnil -> Not(cmem(c, L))` -/
+theorem cmem_nil (c : ISeq) (L : CSeq) : L = cnil → ¬ cmem c L := by
+  rintro rfl h; cases h
+
+/-- `cmem(c, L) == Select(cset(L), c)` -/
+theorem cmem_iff_cset (c : ISeq) (L : CSeq) : cmem c L ↔ cset L c := Iff.rfl
+
+/-- `cmem(c, csnoc(L0, d)) == Or(cmem(c, L0), c == d)` -/
+theorem cmem_snoc (c : ISeq) (L0 : CSeq) (d : ISeq) : cmem c (csnoc L0 d) ↔ (cmem c L0 ∨ c = d) := by
+  unfold cmem csnoc
+  rw [List.mem_append, List.mem_singleton]
+
+/-- `L == cnil -> cset(L) == K(ISeq, False)` -/
+theorem cset_nil (L : CSeq) : L = cnil → cset L = (fun _ => False) := by
+  rintro rfl
+  funext c
+  simp [cset, cnil]
+
+/-- `cset(csnoc(L0, c)) == Store(cset(L0), c, True)` -/
+theorem cset_snoc (L0 : CSeq) (c : ISeq) : cset (csnoc L0 c) = Function.update (cset L0) c True := by
+  funext d
+  unfold cset csnoc
+  by_cases h : d = c
+  · subst h; simp
+  · rw [Function.update_of_ne h]
+    simp [h]
+
+theorem csubsel_subset (R F : CSeq) (h : csubsel R F) : ∀ c ∈ R, c ∈ F := by
+  obtain ⟨p, _, hp⟩ := h
+  intro c hc
+  obtain ⟨i, rfl⟩ := List.get_of_mem hc
+  rw [hp i]
+  exact List.get_mem F (p i)
+
+/-- `csubsel(R, F) -> And(Implies(cdistinct(F), cdistinct(R)), clen(R) <= clen(F),
+    cmaxabs(R) <= cmaxabs(F), Implies(chaszero(R), chaszero(F)))` -/
+theorem csubsel_props (R F : CSeq) : csubsel R F →
+    ((cdistinct F → cdistinct R) ∧ clen R ≤ clen F ∧ cmaxabs R ≤ cmaxabs F ∧
+     (chaszero R → chaszero F)) := by
+  intro h
+  have hsub := csubsel_subset R F h
+  obtain ⟨p, hinj, hp⟩ := h
+  refine ⟨?_, ?_, ?_, ?_⟩
+  · unfold cdistinct
+    intro hF
+    rw [List.nodup_iff_injective_get] at hF ⊢
+    intro i j hij
+    apply hinj
+    apply hF
+    rw [← hp i, ← hp j, hij]
+  · unfold clen
+    have := Fintype.card_le_of_injective p hinj
+    simp only [Fintype.card_fin] at this
+    exact_mod_cast this
+  · rw [cmaxabs_le_iff _ _ (cmaxabs_nonneg' F)]
+    intro c hc
+    exact maxabs_le_cmaxabs F c (hsub c hc)
+  · rintro ⟨c, hc, h0⟩
+    exact ⟨c, hsub c hc, h0⟩
+
+/-- `And(csubsel(R, F), cvalid(k, n, F)) -> cvalid(k, n, R)` -/
+theorem csubsel_cvalid (k n : ℤ) (R F : CSeq) :
+    (csubsel R F ∧ cvalid psat k n F) → cvalid psat k n R := by
+  rintro ⟨hs, hv⟩ c hc
+  exact hv c (csubsel_subset R F hs c hc)
+
+end Samplers
+
 end CnfSem
